@@ -500,3 +500,65 @@ func (c *Ctx) CtorOnly() map[*ssa.Function]bool {
 
 var _ = sort.Strings
 var _ types.Type
+
+// ruleTxOpsBuffered: every successful TransactionImpl.Put/Delete has buffered exactly that operation, and pending operations
+// leave the buffer only through Clear (rollback / after commit).
+func ruleTxOpsBuffered(c *Ctx, r *Reporter) {
+	r.Rule("ops-are-buffered", 4)
+	ops := c.Field("pkg/transaction", "Buffer", "operations")
+	if ops == nil {
+		r.Unresolved("transaction.Buffer.operations", "not found")
+		return
+	}
+	for _, mn := range []string{"Put", "Delete"} {
+		fn := c.Func("pkg/transaction", "TransactionImpl", mn)
+		bf := c.Func("pkg/transaction", "Buffer", mn)
+		if fn == nil || bf == nil {
+			r.Unresolved("transaction.TransactionImpl."+mn+" / Buffer."+mn, "not found")
+			continue
+		}
+		isBuf := func(ins ssa.Instruction) bool {
+			call, ok := ins.(*ssa.Call)
+			if !ok || call.Call.StaticCallee() != bf {
+				return false
+			}
+			// the method's own key (and value)
+			for i := 1; i < len(call.Call.Args) && i < len(fn.Params); i++ {
+				if !sameValue(call.Call.Args[i], fn.Params[i]) {
+					return false
+				}
+			}
+			return true
+		}
+		exits := SuccessExits(fn, true)
+		miss, path := MustPass(fn, exits, isBuf)
+		r.Check(miss == nil && len(exits) > 0, "transaction.TransactionImpl."+mn+":buffers-the-operation", c.FnPos(fn),
+			"every success exit passes Buffer."+mn+" with the caller's arguments",
+			"a success exit is reachable without buffering the operation (Buffer."+mn+" with the caller's key): the transaction reports success for a write it will neither show nor commit", c.PathString(path)...)
+	}
+	// who removes pending operations
+	allowedDel := map[string]bool{"transaction.Buffer.Clear": true, "transaction.NewBuffer": true}
+	allowedUpd := map[string]bool{"transaction.Buffer.Put": true, "transaction.Buffer.Delete": true}
+	var badDel, badUpd []string
+	for _, fn := range c.KevoFns {
+		name := FnName(topParent(fn))
+		AllInstrs(fn, false, func(_ *ssa.Function, ins ssa.Instruction) {
+			switch x := ins.(type) {
+			case *ssa.Call:
+				if b, ok := x.Call.Value.(*ssa.Builtin); ok && (b.Name() == "delete" || b.Name() == "clear") && isLoadOfField(x.Call.Args[0], ops) && !allowedDel[name] {
+					badDel = append(badDel, name+" ("+c.InsPos(ins)+")")
+				}
+			case *ssa.Store:
+				if fieldVarOf(x.Addr) == ops && !allowedDel[name] {
+					badDel = append(badDel, name+" ("+c.InsPos(ins)+")")
+				}
+			case *ssa.MapUpdate:
+				if isLoadOfField(x.Map, ops) && !allowedUpd[name] {
+					badUpd = append(badUpd, name+" ("+c.InsPos(ins)+")")
+				}
+			}
+		})
+	}
+	r.Check(len(badDel) == 0, "transaction.Buffer.operations:removals", "", "pending operations are only dropped by Clear", "a pending operation can be dropped from the buffer outside Clear: "+strings.Join(badDel, ", ")+" — a buffered write or delete silently disappears from the transaction")
+	r.Check(len(badUpd) == 0, "transaction.Buffer.operations:updates", "", "pending operations are only recorded by Buffer.Put/Delete", "the buffer's map is updated outside Buffer.Put/Delete: "+strings.Join(badUpd, ", "))
+}
